@@ -375,12 +375,14 @@ def list_values(draw, depth=0, unq_classes=("id", "plain1", "id_plain")):
 @st.composite
 def tuple_values(draw):
     n = draw(st.integers(1, 4))
-    keys = draw(st.lists(st.one_of(IDENT, st.text(alphabet="abc XYZ_", min_size=1, max_size=6).map(str.strip).filter(bool)),
+    keys = draw(st.lists(st.one_of(IDENT, st.sampled_from(["True", "False", "Visible"]),
+                                   st.text(alphabet="abc XYZ_", min_size=1, max_size=6).map(str.strip).filter(bool)),
                          min_size=n, max_size=n, unique=True))
     pairs = []
     for key in keys:
         kq = draw(st.sampled_from(["double", "single", "none"])) if ID_RE.match(key) else draw(st.sampled_from(["double", "single"]))
-        val = draw(st.one_of(quoted_strings(), unquoted_strings(False, ("id", "plain1", "id_plain")), int_values(), float_values(False)))
+        val = draw(st.one_of(quoted_strings(), unquoted_strings(False, ("id", "plain1", "id_plain")), int_values(), float_values(False),
+                             st.sampled_from(["True", "False"]).map(lambda w: {"k": "str", "v": w, "q": "none"})))
         pairs.append([{"k": "str", "v": key, "q": kq}, val])
     g = [draw(gaps(2)) for _ in range(n + 1)]
     cg = [draw(inline_gap()) for _ in range(2 * n)]
